@@ -3,7 +3,11 @@
 std::string pairKey(const std::string& op, const Obj& a, const Obj& b) const {
     return op + ":" + typeName(a.t) + "," + typeName(b.t);   // object kinds are in the history of the witness
 }
-static LC cdiv(const LC& a, const LC& b) { return a / b; }
+// Scalar pairs for which the negator<>/conjugate<> operators themselves return a wrong value (finding
+// of the scalar part, keyed "scalar:<op>:<A>,<B>"): matrix operations built on such a pair are
+// generated at a reduced rate and reported under the key of that root cause.
+static bool defectivePair(bool div, int ta, int tb) { return Cplx && ((!div && ta == 3 && tb == 1) || (div && (ta == 2 || ta == 3) && tb == 1)); }
+std::string rootKey(bool div, int ta, int tb) const { return std::string("scalar:") + (div ? "/" : "*") + ":" + typeName(ta) + "," + typeName(tb); }
 bool smallAny(const Obj& o, double lim = 0.05) const {
     for (int e = 0; e < o.nr * o.nc; ++e) for (int k = 0; k < K; ++k) { C x = lget(o, e, k); if (!(std::abs(x) >= lim)) return true; }
     return false;
@@ -130,14 +134,14 @@ bool op_elementwiseInplace() {
 // Check a freshly computed library result (any element type) against the reference; if its
 // element type belongs to the family it may be adopted as a new live owner object.
 template <class ResT> void finishResult(const std::string& key, const ResT& res, int nr, int nc, int KR,
-                                        const std::vector<LC>& ref, const std::vector<LD>& tol, bool mayAdopt) {
+                                        const std::vector<LC>& ref, const std::vector<LD>& tol, bool mayAdopt, const std::string& arithKey = "") {
     typedef typename ResT::E RE; typedef typename ET<RE>::P RP;
     static_assert(std::is_same<RP, P>::value, "result precision");
     int gr, gc; std::vector<std::complex<RP>> got;
     readAny(static_cast<const MatrixBase<RE>&>(res), gr, gc, got);
     if (gr != nr || gc != nc || (int)ET<RE>::K != KR)
         fail("shape:" + key, vh::Json::obj().set("lib_nrow", gr).set("lib_ncol", gc).set("expected_nrow", nr).set("expected_ncol", nc).set("elt", ET<RE>::name()));
-    checkVals("arith:" + key, got, ref, tol, "result of expression (" + ET<RE>::name() + ")");
+    checkVals(arithKey.empty() ? "arith:" + key : arithKey, got, ref, tol, "result of expression (" + ET<RE>::name() + ")");
     constexpr int TR = indexOfType<RE>();
     if constexpr (TR >= 0) {
         if (mayAdopt && pool.size() < 14 && r.coin(0.5)) {
@@ -237,6 +241,8 @@ bool op_matmul() {
     Obj* b = pick([&](const Obj& o) { return okR(o) && o.nr == a->nc && (form == 0 || shapeOf(o.kind) == 1); }); if (!b) return false;
     if (!IsScalar && NT == 2) return false;
     if (hasNaN(*a) || hasNaN(*b)) { c.skip("nan-input"); return false; }
+    const bool rootDefect = defectivePair(false, a->t, b->t) && a->nc > 0;
+    if (rootDefect && !r.coin(0.25)) return false;
     const int m = a->nr, p = a->nc, n = b->nc;
     std::vector<LC> A = logical(*a), Bv = logical(*b), ref((size_t)m * n); std::vector<LD> tol((size_t)m * n);
     for (int i = 0; i < m; ++i) for (int j = 0; j < n; ++j) {
@@ -247,18 +253,19 @@ bool op_matmul() {
     static const char* nm[] = {"matrix*matrix", "matrix*vector", "row*vector"};
     log(std::string(nm[form]) + ": " + tag(*a) + " * " + tag(*b));
     std::string key = pairKey(nm[form], *a, *b);
+    const std::string akey = rootDefect ? rootKey(false, a->t, b->t) : "arith:" + key;
     cover(nm[form], *a); cover(std::string("rhs-of-") + nm[form], *b);
     withT(a->t, [&](auto ta) {
         constexpr int TA = decltype(ta)::value;
         withT(b->t, [&](auto tb) {
             constexpr int TB = decltype(tb)::value;
             if constexpr (IsScalar || (NT == 4 && (TA & 2) && !(TB & 2))) {
-                if (form == 0) { auto res = asBase<TA>(*a) * asBase<TB>(*b); finishResult(key, res, m, n, 1, ref, tol, IsScalar); }
-                else if (form == 1) { auto res = asBase<TA>(*a) * asVec<TB>(*b); finishResult(key, res, m, 1, 1, ref, tol, IsScalar); }
+                if (form == 0) { auto res = asBase<TA>(*a) * asBase<TB>(*b); finishResult(key, res, m, n, 1, ref, tol, IsScalar, akey); }
+                else if (form == 1) { auto res = asBase<TA>(*a) * asVec<TB>(*b); finishResult(key, res, m, 1, 1, ref, tol, IsScalar, akey); }
                 else {
                     auto res = asRow<TA>(*a) * asVec<TB>(*b);
                     typedef decltype(res) RE; std::vector<std::complex<typename ET<RE>::P>> got(ET<RE>::K); ET<RE>::get(res, got.data());
-                    checkVals("arith:" + key, got, ref, tol, "dot product result (" + ET<RE>::name() + ")");
+                    checkVals(akey, got, ref, tol, "dot product result (" + ET<RE>::name() + ")");
                 }
             }
         });
@@ -279,6 +286,12 @@ bool op_elementwiseExpr() {
     if (v == 7) { if (shapeOf(a->kind) == 2) return false; s = pick([&](const Obj& o) { return shapeOf(o.kind) == 1 && o.nr == a->nr && !hasNaN(o); }); if (!s) return false; }
     if (v == 8) { if (shapeOf(a->kind) == 1) return false; s = pick([&](const Obj& o) { return shapeOf(o.kind) == 1 && o.nr == a->nc && !hasNaN(o); }); if (!s) return false; }
     if ((v == 2 || v == 6) && smallAny(*a)) return false;
+    std::string akey;
+    if (s && v >= 3 && v <= 8 && a->nr * a->nc > 0) {
+        const bool div = (v == 5 || v == 6), fromLeft = (v == 4 || v == 6);
+        const int tl = fromLeft ? s->t : a->t, tr = fromLeft ? a->t : s->t;
+        if (defectivePair(div, tl, tr)) { if (!r.coin(0.25)) return false; akey = rootKey(div, tl, tr); }
+    }
     C ev[K]; randEltVals(ev);
     std::vector<LC> A = logical(*a), S; if (s) S = logical(*s);
     int rr = a->nr, rc = a->nc; if (v == 12) rc = 1; if (v == 13) rr = 1;
@@ -311,7 +324,7 @@ bool op_elementwiseExpr() {
     withT(a->t, [&](auto tt) {
         constexpr int T = decltype(tt)::value; typedef EltT<T> E; E e = mkElt<E>(ev);
         const MatrixBase<E>& m = asBase<T>(*a);
-        auto fin = [&](const auto& res, bool adopt) { finishResult(key, res, rr, rc, K, ref, tol, adopt); };
+        auto fin = [&](const auto& res, bool adopt) { finishResult(key, res, rr, rc, K, ref, tol, adopt, akey); };
         if (v == 0) withShape<T>(*a, [&](auto& x0) { const auto& x = x0; fin(x.abs(), false); });
         else if (v == 1) fin(m.standardize(), false);
         else if (v == 9) fin(m.elementwiseAddScalar(e), true);
